@@ -84,6 +84,10 @@ def build_model_driver():
 
 
 REPO = os.environ.get("VERIF_REPO", "/repo")
+if REPO != "/repo":
+    # mutation self-tests must not overwrite the evidence / replays of the real tree
+    EVIDENCE = os.path.join(WORK, "scratch_evidence")
+    REPLAYS = os.path.join(WORK, "scratch_replays")
 
 
 def build_harness():
